@@ -160,7 +160,24 @@ class Ctx:
     def run_case(self, sub, case):
         """Run one case; returns list of unlisted violation records."""
         r = R()
-        sub.fn(case, r)
+        try:
+            sub.fn(case, r)
+        except (MemoryError, RecursionError):
+            raise
+        except Exception as e:
+            # An exception the check did not anticipate.  If it passed through a frame of the code under test, osyris
+            # refused or crashed on a call that the check (quiet on the pinned tree) expects to succeed: that is a
+            # violation of the property being exercised, not a harness error.  Exceptions raised by the check's own
+            # code stay harness errors.
+            import traceback
+            src = env.osyris_src() + os.sep
+            frames = traceback.extract_tb(e.__traceback__)
+            inside = [f for f in frames if os.path.abspath(f.filename).startswith(src)]
+            if not inside:
+                raise
+            last = inside[-1]
+            r.bad(["uncaught-exception", type(e).__name__, f"{os.path.basename(last.filename)}:{last.name}"],
+                  f"{e!r} raised through {last.filename}:{last.lineno} ({last.name}); the check expects this call to succeed")
         self.counters["evaluations"] += 1
         self.sub_evals[sub.name] += 1
         sl = self.sub_labels.setdefault(sub.name, Counter())
